@@ -9,7 +9,10 @@ import FitProofs.RunningSum
   `expand` (FitModel/File.lean) follows the generated `expandComponents` methods statement by
   statement, including three deviations from the profile's component rules that are recorded as
   known findings (D10, D11, D12 in DESIGN.md): the theorems `…_counterexample` exhibit them,
-  `…_partial` theorems state what holds.
+  `…_partial` theorems state what holds.  `expand_eq_spec` shows that nothing else separates the code
+  from a rule-driven reading of the profile; `record_distance_running_sum` (FitProofs/RunningSum.lean)
+  is the property's last sentence for the records of a file: the accumulated distance is the running
+  sum of the rollover-corrected deltas on top of the accumulator the decoder found.
 -/
 namespace Fit.Props.C18
 open Fit
